@@ -67,3 +67,20 @@ Qed.
 Print Assumptions C12_source_create_id.
 Print Assumptions C12_source_create_reply.
 Print Assumptions C12_source_refused_keeps_counter.
+
+(* ---- clear restarts the counter, on the translated Traph.clear (GenTraphI.v): whatever the stores held and whatever ids had been
+   issued, after clear() without rules the header object holds 0 and the header block of the emptied file decodes to 0: the next
+   creation returns 1 (C12_source_create_id applies to the state reached, by hrep). *)
+From Traph Require GenTraphI GenTraphIAll GenTraphPDefs.
+Theorem C12_source_clear_restarts : forall s rm sg sgl od, GenTraphPDefs.ramrep s rm ->
+  GenStorage.pm_block_size sg = 128 -> GenStorage.pm_block_size sgl = 16 ->
+  exists f0 rm' hd lhd sg' sgl', (forall f, (f0 <= f)%nat -> GenTraphI.py_traph_clear f rm sg sgl od None = Some (rm', hd, lhd, sg', sgl')) /\
+    py_thdr_last_webentity_id hd = 0 /\ firstn 128 (GenStorage.pm_array sg') = encode_trie_header 0.
+Proof.
+  intros s rm sg sgl od Hram Hb1 Hb2.
+  destruct (GenTraphIAll.py_traph_clear_closed s rm sg sgl od None Hram Hb1 Hb2 I) as (f0 & rm' & hd & lhd & sg' & sgl' & Hf & _ & (_ & Hd & Hb) & _);
+    [vm_compute; reflexivity|vm_compute; reflexivity|].
+  exists f0, rm', hd, lhd, sg', sgl'. split; [exact Hf|]. cbn [clear lastwe] in Hd, Hb. split; [|exact Hb].
+  unfold py_thdr_last_webentity_id. rewrite Hd. reflexivity.
+Qed.
+Print Assumptions C12_source_clear_restarts.
